@@ -60,6 +60,10 @@ function __mk() {
 	var mode = __mode, re;
 	if (mode === "subclass") {
 		if (__Sub === null) __Sub = class Sub extends RegExp {};
+		if (__clone) {
+			if (__base === null) __base = new RegExp(__src, __flags);
+			return new __Sub(__base);
+		}
 		return new __Sub(__src, __flags);
 	}
 	if (__clone) {
